@@ -123,7 +123,7 @@ CLAIMS = {
 
 CLAIMS["C12"] = {
     "technique": "bounded Kani harnesses on the negotiation functions extracted verbatim (icu_locid types and std Vec replaced by small stand-ins)",
-    "text": "Bounded: for up to 3 supported locales and up to 2 requested languages over a closed subtag universe, "
+    "text": "Bounded: for up to 3 supported locales and up to 2 (quick) / 3 (thorough) requested languages over a closed subtag universe, "
             "find_match returns the default locale when no supported locale matches any request, and otherwise a "
             "supported locale that matches the earliest-listed request that has a match at all (exactly, or as a less "
             "specific form of it), the exact match when there is one. Complete over the same universe: lang_id_matches "
@@ -156,13 +156,13 @@ CLAIMS["C19"] = {
             "CfgFileVisitor::visit_map (statements lifted verbatim, rule E3) accepts exactly the tables whose every key and "
             "target is a listed locale and in which the default locale is not a key; (1) the normalisation statement of ConfigFile::new "
             "(lifted verbatim into a function, rule E3) puts the default locale first, keeps exactly the listed names plus "
-            "the default, and grows the list by at most one; (2) contain_duplicates returns None exactly when no name is "
+            "the default, moves a listed default without adding it again and adds an unlisted one exactly once; (2) contain_duplicates returns None exactly when no name is "
             "listed twice and otherwise exactly the set of names listed more than once.",
     "note": "Not covered (outside both verifiers): TOML/serde deserialisation incl. required fields (serde MapAccess), file "
             "selection, the call sites in ConfigFile::new / visit_map. Noted, not decidable here: the `inherits` validation runs "
             "before the default is added to the list, so `inherits = {fr = \"en\"}` with an unlisted default `en` is rejected. "
-            "Not shown: that a listed default is not appended again (vstd cannot name the temporary iterator of "
-            "`.iter().position(..)`). Assumed std contracts: slice::swap, Iterator::position, A2 "
+            "Assumed std contracts: slice::swap, A5 `v.iter().position(p)` (one call; vstd cannot relate the temporary "
+            "iterator to the vector in the `None` case), A2 "
             "Option::get_or_insert_with(BTreeSet::new).insert(k); C1 closure contract annotation on `|l| l == &cfg.default`.",
     "design_ref": "DESIGN.md section 8.5",
 }
